@@ -30,26 +30,26 @@ func (r *Rng) Intn(n int) int {
 	}
 	return int(r.U64() % uint64(n))
 }
-func (r *Rng) Bool() bool         { return r.U64()&1 == 1 }
-func (r *Rng) Chance(p int) bool  { return r.Intn(100) < p }
+func (r *Rng) Bool() bool           { return r.U64()&1 == 1 }
+func (r *Rng) Chance(p int) bool    { return r.Intn(100) < p }
 func (r *Rng) Range(lo, hi int) int { return lo + r.Intn(hi-lo+1) }
-func (r *Rng) Fork() *Rng         { return NewRng(r.U64()) }
+func (r *Rng) Fork() *Rng           { return NewRng(r.U64()) }
 
 // ---------- trace writer: one op line for the Lean driver, one answer line from the implementation ----------
 
 type Trace struct {
-	dir     string
-	ops     *bufio.Writer
-	impl    *bufio.Writer
-	catw    *bufio.Writer
-	catF    *os.File
-	opsF    *os.File
-	implF   *os.File
-	n       int
-	cats    map[string]int
-	samples []string
-	notes   []string
-	extra   map[string]interface{}
+	dir      string
+	ops      *bufio.Writer
+	impl     *bufio.Writer
+	catw     *bufio.Writer
+	catF     *os.File
+	opsF     *os.File
+	implF    *os.File
+	n        int
+	cats     map[string]int
+	samples  []string
+	notes    []string
+	extra    map[string]interface{}
 	distinct map[string]struct{}
 }
 
@@ -97,8 +97,8 @@ func (t *Trace) Emit(cat string, nontrivial bool, op string, impl string) {
 	}
 }
 
-func (t *Trace) Note(s string)                       { t.notes = append(t.notes, s) }
-func (t *Trace) Set(k string, v interface{})         { t.extra[k] = v }
+func (t *Trace) Note(s string)               { t.notes = append(t.notes, s) }
+func (t *Trace) Set(k string, v interface{}) { t.extra[k] = v }
 func (t *Trace) Add(k string, d int) {
 	if v, ok := t.extra[k].(int); ok {
 		t.extra[k] = v + d
@@ -150,5 +150,5 @@ func sortedKeys(m map[string]int) []string {
 	return ks
 }
 
-func tempDir() string { return os.TempDir() }
+func tempDir() string    { return os.TempDir() }
 func removeAll(p string) { _ = os.RemoveAll(p) }
